@@ -44,13 +44,30 @@ type c16Case struct {
 	Closed bool   `json:"closed"`
 	Mode   string `json:"mode"`   // limit0, limit2g, limit-len, limit-half, reader0, ndjson-line
 	Primer string `json:"primer"` // detection executed just before (same pooled state)
+	// Shape "repeat": Unit repeated Depth times, then Tail (no nesting at all: the
+	// statement bounds ANY recursion during detection by a fixed depth)
+	Unit []byte `json:"unit,omitempty"`
+	Tail string `json:"tail,omitempty"`
+}
+
+func (k c16Case) refKey() string {
+	if k.Shape == "repeat" {
+		return "repeat|" + string(k.Unit)
+	}
+	return k.Shape
 }
 
 func (k c16Case) key() string {
+	if k.Shape == "repeat" {
+		return fmt.Sprintf("repeat unit=%q x %d tail=%q mode=%s", k.Unit, k.Depth, k.Tail, k.Mode)
+	}
 	return fmt.Sprintf("bomb shape=%s depth=%d closed=%v mode=%s primer=%s", k.Shape, k.Depth, k.Closed, k.Mode, k.Primer)
 }
 
 func c16Doc(k c16Case) []byte {
+	if k.Shape == "repeat" {
+		return append(bytes.Repeat(k.Unit, k.Depth), k.Tail...)
+	}
 	var sh c16Shape
 	for _, s := range c16Shapes {
 		if s.name == k.Shape {
@@ -174,6 +191,12 @@ func c16Judge(c *fw.Ctx, k c16Case, refKB map[string]int64, doc []byte) {
 		return
 	}
 	fam := inJSONFamily(out.chain) || (k.Mode == "ndjson-line" && out.chain.Has("application/x-ndjson"))
+	if k.Shape == "repeat" {
+		// only the stack monitors apply (crash under the 64 MiB cap, plateau)
+		exDepth = 0
+		c.Count("repeated_unit_inputs", 1)
+		c.Max("repeated_unit_input_bytes", int64(len(doc)))
+	}
 	if exDepth >= 8192 {
 		c.Count("bombs_deeper_than_2x_cap", 1)
 		if fam {
@@ -185,8 +208,8 @@ func c16Judge(c *fw.Ctx, k c16Case, refKB map[string]int64, doc []byte) {
 	}
 	c.Max("stack_increment_KiB_any_depth", out.incKB)
 	c.Max(fmt.Sprintf("stack_increment_KiB_depth_%d", k.Depth), out.incKB)
-	ref := refKB[k.Shape]
-	if exDepth > 8192 && ref > 0 {
+	ref := refKB[k.refKey()]
+	if (exDepth > 8192 || (k.Shape == "repeat" && k.Depth > 8192)) && ref > 0 {
 		lim := 4 * ref
 		if lim < 8192 {
 			lim = 8192
@@ -199,6 +222,9 @@ func c16Judge(c *fw.Ctx, k c16Case, refKB map[string]int64, doc []byte) {
 	c.SetAdd("pooled_parser_maxRecursion_seen", fmt.Sprint(st.MaxRecursion))
 	if exDepth >= 8192 {
 		c.Distinct(fmt.Sprintf("%s|%d|%v|%s|%s", k.Shape, k.Depth, k.Closed, k.Mode, k.Primer))
+	}
+	if k.Shape == "repeat" && k.Depth > 8192 {
+		c.Distinct(fmt.Sprintf("repeat|%q|%s|%s", k.Unit, k.Tail, k.Mode))
 	}
 	if c.WantSample() && c.Rand.Intn(10) == 0 {
 		c.Sample(map[string]any{"case": k, "input_bytes": len(doc), "result": out.chain.String(), "stack_increment_KiB": out.incKB})
@@ -213,9 +239,64 @@ func c16Depths(tier string) []int {
 	return d
 }
 
+// c16Units: byte sequences that a scanner may "skip and try again" - if that retry
+// is a recursive call, the depth grows with the input (BOMs, white space, markup
+// openers, comment starts, separators, magic numbers).
+func c16Units() [][]byte {
+	var us [][]byte
+	for _, s := range []string{"\xEF\xBB\xBF", "\xFF\xFE", "\xFE\xFF", "\x00\x00\xFE\xFF", " ", "\n", "\r\n", "\t", "\x0c", "\r",
+		"<", "<!--", "<!-- -->", "<?", "<?xml ", "<?xml version=\"1.0\"?>", "<a>", "<a ", "<![CDATA[", "<!DOCTYPE ", "<html>", "<svg>", "</", "<meta ", "<meta charset", "&", ">",
+		",", ":", "\"", "\\", "\"\"", "1,", "{}", "[]", "[],", "{},", "\"a\":", "//", "/*", "/**/", "#", "#!", "#\n", "--", "'", ";", "=", "charset=", "encoding=",
+		"\x00", "\xff", "\x80", "\x1a\x45\xdf\xa3", "PK\x03\x04", "PK\x05\x06", "\x1f\x8b", "ftyp", "RIFF", "ID3", "\xff\xfb", "OggS", "%PDF-", "%!PS", "BEGIN:", "\n\n", "a", "a,", "a\t", "\"a\"\n", "{\"a\":1}\n", "1\n"} {
+		us = append(us, []byte(s))
+	}
+	return us
+}
+
+func c16Repeats(c *fw.Ctx, b fw.Batch) {
+	units := c16Units()
+	dict := lib.SourceDictionary()
+	nd := 40
+	size := 6 << 20
+	if c.Tier == "thorough" {
+		nd, size = 400, 24<<20
+	}
+	for i := 0; i < nd && len(dict) > 0; i++ {
+		t := dict[c.Rand.Intn(len(dict))]
+		if len(t) > 0 && len(t) <= 64 {
+			units = append(units, t)
+		}
+	}
+	lo, hi := split(len(units), b.Idx, b.Of)
+	refKB := map[string]int64{}
+	for _, u := range units[lo:hi] {
+		rk := c16Case{Shape: "repeat", Unit: u, Depth: 8192, Mode: "limit0", Primer: "none"}
+		out := c16Exec(rk, c16Doc(rk))
+		runtime.GC()
+		refKB[rk.refKey()] = out.incKB
+		if refKB[rk.refKey()] < 64 {
+			refKB[rk.refKey()] = 64
+		}
+		n := size / len(u)
+		for ti, tail := range []string{"", "[1]", "x"} {
+			doc := c16Doc(c16Case{Shape: "repeat", Unit: u, Depth: n, Tail: tail})
+			for mi, mode := range []string{"limit0", "limit2g", "reader0"} {
+				if c.Tier != "thorough" && (ti+mi)%3 != 0 && !(ti == 0 && mi == 0) {
+					continue
+				}
+				c16Judge(c, c16Case{Shape: "repeat", Unit: u, Depth: n, Tail: tail, Mode: mode, Primer: "none"}, refKB, doc)
+			}
+		}
+	}
+}
+
 func c16Run(c *fw.Ctx, b fw.Batch) {
 	debug.SetGCPercent(-1)
 	debug.SetMaxStack(64 << 20)
+	if b.Kind == "repeats" {
+		c16Repeats(c, b)
+		return
+	}
 	sh := c16Shapes[b.Idx%len(c16Shapes)]
 	refKB := map[string]int64{}
 	// reference increment at depth 8192 for this shape
@@ -257,7 +338,7 @@ func init() {
 	fw.Register(&fw.Prop{
 		ID:    "C16",
 		Level: "exploration",
-		Rule: "bombs = 8 nesting shapes ('[', '{\"k\":', '[{\"k\":', whitespace-padded, with earlier members, newline-separated) x depths 10 … 10^6 (10^7 thorough) x closed/unclosed x 6 modes (Detect limit 0, limit 2^31, limit = len, limit = len/2, DetectReader limit 0, as one line of an NDJSON stream) x 7 primer detections executed just before on the same pooled parser state (GOMAXPROCS=1, GC off: the pooled state really is reused). Each bomb runs in its own goroutine in a child whose maximum stack is 64 MiB. " +
+		Rule: "bombs = 8 nesting shapes ('[', '{\"k\":', '[{\"k\":', whitespace-padded, with earlier members, newline-separated) x depths 10 … 10^6 (10^7 thorough) x closed/unclosed x 6 modes (Detect limit 0, limit 2^31, limit = len, limit = len/2, DetectReader limit 0, as one line of an NDJSON stream) x 7 primer detections executed just before on the same pooled parser state (GOMAXPROCS=1, GC off: the pooled state really is reused). Repeats = ~75 non-nesting units (BOMs, white space, markup / comment openers, separators, magic numbers) and literals drawn from the source of the tree under test, each repeated to 6 MiB (24 MiB thorough), alone and followed by '[1]' / 'x', through Detect with limit 0 / 2^31 and DetectReader: any recursion whose depth follows the input overflows the 64 MiB stack or breaks the plateau. Each bomb runs in its own goroutine in a child whose maximum stack is 64 MiB. " +
 			"non-trivial = depth >= 8192 (twice the cap); distinct = distinct (shape, depth, closed, mode, primer).",
 		Assumptions: []string{
 			"a fatal stack overflow kills the child; the supervisor re-runs the batch in trace mode and pins the case",
@@ -268,6 +349,9 @@ func init() {
 			var bs []fw.Batch
 			for i := range c16Shapes {
 				bs = append(bs, fw.Batch{Name: "bombs-" + c16Shapes[i].name, Kind: "bombs", Idx: i, Of: len(c16Shapes), TimeoutS: 3000, Env: []string{"GOMAXPROCS=1"}})
+			}
+			for i := 0; i < 6; i++ {
+				bs = append(bs, fw.Batch{Name: fmt.Sprintf("repeats-%d/6", i), Kind: "repeats", Idx: i, Of: 6, TimeoutS: 3000, Env: []string{"GOMAXPROCS=1"}})
 			}
 			return bs
 		},
@@ -282,8 +366,11 @@ func init() {
 			debug.SetMaxStack(64 << 20)
 			runtime.GOMAXPROCS(1)
 			ref := map[string]int64{}
-			rk := c16Case{Shape: k.Shape, Depth: 8192, Closed: true, Mode: "limit0", Primer: "none"}
-			ref[k.Shape] = c16Exec(rk, c16Doc(rk)).incKB
+			rk := c16Case{Shape: k.Shape, Unit: k.Unit, Depth: 8192, Closed: true, Mode: "limit0", Primer: "none"}
+			ref[k.refKey()] = c16Exec(rk, c16Doc(rk)).incKB
+			if ref[k.refKey()] < 64 {
+				ref[k.refKey()] = 64
+			}
 			c16Judge(c, k, ref, nil)
 		},
 		Finish: func(a *fw.Agg) error {
